@@ -424,6 +424,12 @@ class LogFileDateSinceSeeker():
                 return SearchState(status=FindTokenStatus.FOUND,
                                    offset=read_offset + chunk_offset)
 
+            if read_size < LogFileDateSinceSeeker.SEEK_HORIZON:
+                # The read window was clipped at the start of the file i.e.
+                # there is nothing left to read.
+                return SearchState(status=FindTokenStatus.REACHED_EOF,
+                                   offset=0)
+
             if attempts <= 0:
                 break
 
@@ -475,6 +481,10 @@ class LogFileDateSinceSeeker():
             # Progress the current offset forward by
             # chunk's length.
             current_offset = current_offset + len(chunk)
+            if len(chunk) < LogFileDateSinceSeeker.SEEK_HORIZON:
+                # Short read i.e. there is nothing left to read.
+                return SearchState(status=FindTokenStatus.REACHED_EOF,
+                                   offset=len(self))
 
         msg = (f"reached max line length ({self.MAX_SEARCHABLE_LINE_LENGTH}) "
                "search without finding a line feed "
